@@ -80,6 +80,9 @@ struct simk_obs {
 	void (*reap)(int tid, pid_t pid, int status);
 	void (*fd_event)(int tid, int what, int fd, long a);	/* syscall stream */
 	void (*thread_exit)(int tid);
+	void (*lock_event)(int tid, void *addr, int acquired, int spin);
+	void (*would_block)(int tid, int fd);
+	void (*child_event)(pid_t pid, int serial, int state, int status);
 };
 extern struct simk_obs simk_obs;
 
